@@ -279,6 +279,9 @@ func (sched *StdScheduler) ScheduleJob(
 	if jobDetail.jobKey.name == "" {
 		return newIllegalArgumentError("empty key name is not allowed")
 	}
+	if jobDetail.opts == nil {
+		return newIllegalArgumentError("jobDetail.opts is nil")
+	}
 	if trigger == nil {
 		return newIllegalArgumentError("trigger is nil")
 	}
